@@ -82,7 +82,18 @@ func (i *Interp) unlockMutex(fr *frame, c *value) {
 		panic(targetPanic{v: iface{t: i.runtimeErrorString, v: "sync: unlock of unlocked mutex"}, fatal: true})
 	}
 	i.setCell(c, int32(0))
-	i.yield(fr)
+	i.yieldOnRelease(fr)
+}
+
+// Release-type operations (Unlock, Signal, Broadcast) cannot block and only enable others: under the
+// stated data-race-freedom assumption everything the releasing goroutine does up to its next acquire
+// commutes with what the enabled goroutines do, so a context switch right after a release adds no
+// behaviour that a switch at the next acquire/blocking operation does not already give. Skipping
+// these scheduling points (default) is the usual partial-order reduction; yield_on_release restores them.
+func (i *Interp) yieldOnRelease(fr *frame) {
+	if i.cfg.YieldOnRelease {
+		i.yield(fr)
+	}
 }
 
 type condState struct {
@@ -211,7 +222,7 @@ func registerSync() {
 			cs.waiters[0].signalled = true
 			cs.waiters = cs.waiters[1:]
 		}
-		i.yield(fr)
+		i.yieldOnRelease(fr)
 		return nil
 	}
 	intrinsics["(*sync.Cond).Broadcast"] = func(fr *frame, args []value) value {
@@ -221,7 +232,7 @@ func registerSync() {
 			w.signalled = true
 		}
 		cs.waiters = nil
-		i.yield(fr)
+		i.yieldOnRelease(fr)
 		return nil
 	}
 	intrinsics["sync.NewCond"] = nil
